@@ -324,6 +324,66 @@ Proof.
     apply Z.gtb_lt in E'. lia.
 Qed.
 
+(* xs[i] = v for an element the translation tracks (a pointer appended to a list and written through later):
+   the list with element i replaced; unchanged when i is out of range *)
+Fixpoint list_set_nat {A} (n : nat) (v : A) (l : list A) : list A :=
+  match l, n with
+  | [], _ => []
+  | _ :: t, O => v :: t
+  | h :: t, S n' => h :: list_set_nat n' v t
+  end.
+Definition list_set {A} (i : Z) (v : A) (l : list A) : list A :=
+  if (i <? 0)%Z then l else list_set_nat (Z.to_nat i) v l.
+
+Lemma list_set_nat_length {A} (n : nat) (v : A) l : List.length (list_set_nat n v l) = List.length l.
+Proof. revert n; induction l as [|h t IH]; intros [|n]; cbn; auto. Qed.
+
+Lemma list_set_len {A} (i : Z) (v : A) l : list_len (list_set i v l) = list_len l.
+Proof. unfold list_set, list_len. destruct (i <? 0)%Z; [reflexivity|]. now rewrite list_set_nat_length. Qed.
+
+Lemma list_set_nat_app_last {A} (l : list A) (x v : A) : list_set_nat (List.length l) v (l ++ [x]) = l ++ [v].
+Proof. induction l as [|h t IH]; cbn; [reflexivity|]. now rewrite IH. Qed.
+
+(* the element appended last, replaced *)
+Lemma list_set_app_last {A} (l : list A) (x v : A) : list_set (list_len l) v (l ++ [x]) = l ++ [v].
+Proof.
+  unfold list_set, list_len. destruct (Z.of_nat (List.length l) <? 0)%Z eqn:E; [apply Z.ltb_lt in E; lia|].
+  rewrite Nat2Z.id. apply list_set_nat_app_last.
+Qed.
+
+Lemma list_set_nat_app_left {A} (n : nat) (v : A) (l r : list A) :
+  (n < List.length l)%nat -> list_set_nat n v (l ++ r) = list_set_nat n v l ++ r.
+Proof.
+  revert n; induction l as [|h t IH]; intros [|n] H; cbn in *; try lia; [reflexivity|].
+  rewrite IH by lia. reflexivity.
+Qed.
+
+(* later appends do not move it *)
+Lemma list_set_app_left {A} (i : Z) (v : A) (l r : list A) :
+  (0 <= i < list_len l)%Z -> list_set i v (l ++ r) = list_set i v l ++ r.
+Proof.
+  unfold list_set, list_len. intros H. destruct (i <? 0)%Z eqn:E; [apply Z.ltb_lt in E; lia|].
+  apply list_set_nat_app_left. lia.
+Qed.
+
+(* reflect.DeepEqual against a package-level value whose maps and slices are all non-empty (so that the
+   nil / empty distinction, which the translation does not keep, cannot matter) *)
+Definition ptr_deep_eqb {A} (e : A -> A -> bool) (a b : ptr A) : bool :=
+  match ptr_val a, ptr_val b with
+  | Some x, Some y => e x y
+  | None, None => true
+  | _, _ => false
+  end.
+Fixpoint list_deep_eqb {A} (e : A -> A -> bool) (a b : list A) : bool :=
+  match a, b with
+  | [], [] => true
+  | x :: a', y :: b' => e x y && list_deep_eqb e a' b'
+  | _, _ => false
+  end.
+Definition map_deep_eqb {K V} (keqb : K -> K -> bool) (e : V -> V -> bool) (a b : list (K * V)) : bool :=
+  Z.eqb (map_len keqb a) (map_len keqb b) &&
+  forallb (fun kv => match map_get keqb (fst kv) b with Some v => e (snd kv) v | None => false end) (map_entries keqb a).
+
 Lemma list_get_nth {A} (l : list A) (n : nat) : list_get l (Z.of_nat n) = nth_error l n.
 Proof.
   unfold list_get. destruct (Z.of_nat n <? 0)%Z eqn:E; [apply Z.ltb_lt in E; lia|].
